@@ -341,7 +341,7 @@ pub fn run_c11(ctx: &mut Ctx) {
         ctx.stats.extra.insert("large_constructed_sizes".into(), json!(sizes));
     }
     {
-        let deep: Vec<usize> = tier.pick(vec![2100, 5000, 12_000], vec![2100, 5000, 12_000, 33_000, 65_000]);
+        let deep: Vec<usize> = tier.pick(vec![2100, 5000, 12_000, 20_000, 40_000], vec![2100, 5000, 12_000, 20_000, 40_000, 65_000]);
         let jobs: Vec<(&str, usize)> = DEEP_SHAPES.iter().flat_map(|s| deep.iter().map(move |n| (*s, *n))).collect();
         let part = parallel(jobs.len(), |w| {
             wd.tick();
